@@ -40,7 +40,7 @@ params == <<Len0, Arr0, P0>>
 Assumptions ==
     /\ Len0 \in Nat
     /\ Arr0 \in [0 .. (Len0 - 1) -> Int]
-    /\ P0 \in Nat /\ P0 < Len0
+    /\ P0 \in Nat                            \* any pivot position: in range (P0 < Len0) or not
 
 Idx == 0 .. (Len0 - 1)
 Swap(a, x, y) == [a EXCEPT ![x] = a[y], ![y] = a[x]]
@@ -104,7 +104,13 @@ TypeOK ==
     /\ Assumptions
     /\ arr \in [Idx -> Int]
     /\ pv \in Int /\ i \in Int /\ j \in Int /\ ret \in Int
-    /\ pc \in {"Start", "ScanI", "ScanJ", "Cmp", "done"}          \* never "panic"
+    /\ pc \in {"Start", "ScanI", "ScanJ", "Cmp", "done", "panic"}
+
+(* C15 / C16 for every length: an in-range pivot position never panics; an out-of-range one panics at once, before *)
+(* anything is rearranged, and nothing is ever returned                                                            *)
+InRange == P0 < Len0
+NoPanicInRange == InRange => pc # "panic"
+OorInv == ~InRange => (pc \in {"Start", "panic"} /\ arr = Arr0)
 
 (* every read `arr[i]' / `arr[j]' of the actions is inside the array *)
 CursorInv ==
@@ -131,6 +137,6 @@ Post ==
 
 StartOK == pc = "Start" => arr = Arr0
 
-Inv == TypeOK /\ CursorInv /\ LoopInv /\ Post /\ StartOK
+Inv == TypeOK /\ NoPanicInRange /\ OorInv /\ CursorInv /\ LoopInv /\ Post /\ StartOK
 
 =============================================================================
